@@ -49,6 +49,40 @@ def must_precede(ctx: Context, rep, rule: str, fn: FunctionInfo,
            if missed else "")
 
 
+def never_after(ctx: Context, rep, rule: str, fn: FunctionInfo,
+                first: Callable[[Node], bool], then: Callable[[Node], bool],
+                what: str) -> None:
+    """Both events exist and no `first` event is reachable once a `then`
+    event happened (the `first` events may sit in a loop that runs zero
+    times, so "on every path before" would be too strong)."""
+    cfg = ctx.cfg(fn)
+    fnodes = cfg.find(first)
+    tnodes = cfg.find(then)
+    if not tnodes:
+        raise AnalysisError(f"{rule}: anchor not found in {fn.qualname}: "
+                            f"second event of '{what}'")
+    if not fnodes:
+        rep.ob(rule, False, loc=fn.loc(), where=fn.qualname, construct=what,
+               message="the first event of the required order does not exist")
+        return
+    after = cfg.reachable(tnodes, follow=lambda a, b, lab: lab != "exc",
+                          strict=True)
+    late = [n for n in fnodes if n in after]
+    # and the second event cannot be reached around all the first events'
+    # region: it must come after the region on the normal path
+    before = cfg.reachable(fnodes, follow=lambda a, b, lab: lab != "exc",
+                           strict=True)
+    unordered = [t for t in tnodes if t not in before]
+    bad = late or unordered
+    rep.ob(rule, not bad, loc=fn.loc(bad[0].ast) if bad else fn.loc(),
+           where=fn.qualname, construct=what,
+           message="required order" + (
+               f"; `{short(late[0].ast, 50)}` can still run after the second "
+               "event" if late else (
+                   "; the second event is not downstream of the first"
+                   if unordered else "")))
+
+
 def call_pred(ctx: Context, fn: FunctionInfo, *names: str,
               method: str | None = None, recv: str | None = None):
     def pred(n: Node) -> bool:
@@ -373,14 +407,13 @@ def check_order(ctx: Context, rep, rule: str) -> None:
                  lambda n: n.kind == "stmt" and isinstance(n.ast, ast.Return),
                  "ShardsList.write_config: safe_update_file -> return info")
     mg = ctx.fn("sedpack.io.merge_shard_infos:merge_shard_infos")
-    must_precede(ctx, rep, rule, mg,
-                 lambda n: n.kind == "stmt" and any(
-                     isinstance(c, ast.Call) and ctx.is_call(
-                         mg, c, "merge_shard_infos.merge_shard_infos")
-                     for c in ast.walk(n.ast)),
-                 call_pred(ctx, mg, "ShardsList.write_config"),
-                 "merge_shard_infos: recursive merges -> own write_config",
-                 need_first=True)
+    never_after(ctx, rep, rule, mg,
+                lambda n: n.kind in ("stmt", "call") and any(
+                    isinstance(c, ast.Call) and ctx.is_call(
+                        mg, c, "merge_shard_infos.merge_shard_infos")
+                    for c in ast.walk(n.ast)),
+                call_pred(ctx, mg, "ShardsList.write_config"),
+                "merge_shard_infos: recursive merges -> own write_config")
     dw = ctx.fn("sedpack.io.dataset_writing:DatasetWriting.write_config")
     must_precede(ctx, rep, rule, dw,
                  lambda n: n.kind == "for" and any(
@@ -460,6 +493,14 @@ _DF = "src/sedpack/io/dataset_filler.py"
 _SH = "src/sedpack/io/shard/shard.py"
 _DW = "src/sedpack/io/dataset_writing.py"
 SELFTESTS = [
+    dict(rule="C06.order", name="merge-writes-parent-before-children",
+         expect="fire", path="src/sedpack/io/merge_shard_infos.py",
+         edits=[dict(path="src/sedpack/io/merge_shard_infos.py",
+                     old="    # Recursively update.\n    merged: dict[str, ShardListInfo] = {  # Merge recursively.\n",
+                     new="    info = root_shard_list.write_config(\n        dataset_root_path=dataset_root,\n        hashes=hashes,\n    )\n    # Recursively update.\n    merged: dict[str, ShardListInfo] = {  # Merge recursively.\n"),
+                dict(path="src/sedpack/io/merge_shard_infos.py",
+                     old="    return root_shard_list.write_config(\n        dataset_root_path=dataset_root,\n        hashes=hashes,\n    )\n",
+                     new="    root_shard_list.write_config(\n        dataset_root_path=dataset_root,\n        hashes=hashes,\n    )\n    return info\n")]),
     dict(rule="C06.who", name="write-text-in-place", expect="fire", path=_SM,
          old="        file_info: FileInfo = utils.safe_update_file(\n",
          new="        (dataset_root_path / self.relative_path_self).write_text(\"x\")\n        file_info: FileInfo = utils.safe_update_file(\n"),
